@@ -67,7 +67,7 @@ func c16sortedSSA(c *core.Ctx, r *core.Report) {
 		}
 	}
 	sorted, dedup := false, false
-	for _, ii := range core.InlinedInstrsFrom(c, fn, region, 2, func(ins ssa.Instruction) bool {
+	for _, ii := range core.InlinedInstrsFrom(c, fn, region, c.Depth(2), func(ins ssa.Instruction) bool {
 		switch ins.(type) {
 		case *ssa.Call, *ssa.BinOp:
 			return true
@@ -269,7 +269,7 @@ func c16loopSSA(c *core.Ctx, r *core.Report) {
 	}
 	r.Analysed("analysis/defers.AnalyzeFunction")
 	var tii *core.InlinedInstr
-	for _, ii := range core.InlinedInstrs(c, fn, 2, func(ins ssa.Instruction) bool {
+	for _, ii := range core.InlinedInstrs(c, fn, c.Depth(2), func(ins ssa.Instruction) bool {
 		call, ok := ins.(*ssa.Call)
 		if !ok {
 			return false
@@ -314,7 +314,7 @@ func c16loopSSA(c *core.Ctx, r *core.Report) {
 	r.Check(okIdx, "R16.index", "analysis/defers.AnalyzeFunction|producer", c.Pos(transfer.Pos()), "the transfer function receives (block.Index, range index over block.Instrs, that instruction)", "the indices pushed on defer stacks are not (BasicBlock.Index, position in Instrs) of the instruction transferred: the consumer resolves them to the wrong instruction")
 	// record-before-reset
 	okRec, nRec := true, 0
-	for _, ii := range core.InlinedInstrs(c, fn, 2, func(ins ssa.Instruction) bool {
+	for _, ii := range core.InlinedInstrs(c, fn, c.Depth(2), func(ins ssa.Instruction) bool {
 		mu, ok := ins.(*ssa.MapUpdate)
 		if !ok {
 			return false
